@@ -150,6 +150,11 @@ def runOp (st : DState) (toks : List String) (r : Recorded) : DState × List Str
     let res := decode cfg env lib (unhex str) (num coin) w
     ({ st with lib := res.lib },
       emit res.events s!"st={res.out.status.toNat} seed={seedRef res.out.seed} lang={optNum res.out.langOut}")
+  | ["decoden", coin, str] =>
+    -- `lang_out == NULL`: the same call, nothing is written through the pointer
+    let res := decode cfg env lib (unhex str) (num coin) w
+    ({ st with lib := res.lib },
+      emit res.events s!"st={res.out.status.toNat} seed={seedRef res.out.seed} lang=-")
   | ["decodex", coin, li, str] =>
     let res := decodeExplicit cfg env lib (unhex str) (num coin) (langAt cfg (num li)) w
     ({ st with lib := res.lib },
